@@ -47,6 +47,8 @@ pub const PROGRAMS: &[&str] = &[
     "x = 4 ; y = boom(x) ; z = 5",
     // grouping depends on the precedence `plus` is registered with
     "2 * 3 plus 4",
+    // a word that becomes an operator whose name is short in characters and long in bytes
+    "1 \u{4e0d}\u{5305}\u{542b}\u{4e8e} 2",
 ];
 
 /// programs used in the histories that contain a registration
@@ -60,13 +62,35 @@ const REREG: u64 = u64::MAX - 2;
 const REREG_T: u64 = u64::MAX - 3;
 /// replace the built-in function `max` (possibly as the very first engine call of the process)
 const REGMAX: u64 = u64::MAX - 4;
+/// register the infix operator of program 24 (4 characters, 12 bytes)
+const REG_CJK: u64 = u64::MAX - 5;
+/// register an unrelated prefix operator with a long ASCII name
+const REG_LONG: u64 = u64::MAX - 6;
 
 fn is_reg(op: u64) -> bool {
-    op >= REGMAX
+    op >= REG_LONG
 }
 
 fn register_plus(world: &mut World, op: u64) {
     use crate::model::lex::InfixInfo;
+    if op == REG_CJK {
+        use expression_engine::{InfixOpAssociativity, InfixOpType};
+        expression_engine::register_infix_op("\u{4e0d}\u{5305}\u{542b}\u{4e8e}", 110, InfixOpType::CALC, InfixOpAssociativity::LEFT, Arc::new(|a, b| Ok(Value::Number(a.decimal()? - b.decimal()?))));
+        world.ops.infix.insert("\u{4e0d}\u{5305}\u{542b}\u{4e8e}".into(), InfixInfo { prec: 110, left: true, setter: false });
+        let h: HFn = Arc::new(|a| match (&a[0], &a[1]) {
+            (Value::Number(x), Value::Number(y)) => Ok(Value::Number(x - y)),
+            _ => Err(eval::EErr::Type),
+        });
+        world.infix.insert("\u{4e0d}\u{5305}\u{542b}\u{4e8e}".into(), h);
+        return;
+    }
+    if op == REG_LONG {
+        expression_engine::register_prefix_op("an_unrelated_prefix_operator_with_a_long_name", Arc::new(|v| Ok(v)));
+        world.ops.prefix.insert("an_unrelated_prefix_operator_with_a_long_name".into());
+        let h: HFn = Arc::new(|a| Ok(a[0].clone()));
+        world.prefix.insert("an_unrelated_prefix_operator_with_a_long_name".into(), h);
+        return;
+    }
     if op == REGMAX {
         expression_engine::register_function("max", Arc::new(|_| Ok(Value::Number(Decimal::from(99)))));
         let h: HFn = Arc::new(|_| Ok(Value::Number(Decimal::from(99))));
@@ -140,6 +164,20 @@ fn reg_histories() -> Vec<Vec<u64>> {
             }
         }
     }
+    // an operator registered, used, then an unrelated registration, used again: the result may
+    // not depend on the unrelated registration (program 24 uses the operator)
+    {
+        let uses: Vec<u64> = (0..3).map(|k| (24 * KINDS.len() + k) as u64).collect();
+        for a in &uses {
+            v.push(vec![REG_CJK, *a]);
+            v.push(vec![*a, REG_CJK, *a]);
+            v.push(vec![REG_LONG, REG_CJK, *a]);
+            for b in &uses {
+                v.push(vec![REG_CJK, *a, REG_LONG, *b]);
+                v.push(vec![*a, REG_CJK, *b, REG_LONG, *a]);
+            }
+        }
+    }
     // a registration followed by a re-registration with another handler and precedence
     // (same thread / another thread), evaluations before, between and after
     for (r1, r2) in [(REGISTER, REREG), (REGISTER, REREG_T), (REGISTER_T, REREG), (REGISTER_T, REREG_T)] {
@@ -174,6 +212,8 @@ fn op_text(op: u64) -> String {
         REREG => return "register_infix_op(plus,125,LEFT,mul)".into(),
         REREG_T => return "[other thread] register_infix_op(plus,125,LEFT,mul)".into(),
         REGMAX => return "register_function(max, constant 99)".into(),
+        REG_CJK => return "register_infix_op(<4 CJK characters>,110,LEFT,sub)".into(),
+        REG_LONG => return "register_prefix_op(an_unrelated_prefix_operator_with_a_long_name)".into(),
         _ => {}
     }
     format!("{}({:?})", KINDS[(op as usize) % KINDS.len()], PROGRAMS[(op as usize) / KINDS.len()])
